@@ -6,7 +6,9 @@ P=$(python3 -c "import json;print(json.load(open('$D/meta.json'))['property'])")
 cd /repo || exit 2
 if [ -n "$(git status --porcelain)" ]; then echo "/repo not clean"; exit 2; fi
 git apply "$D/patch.diff" || exit 2
-cd /verif && ./check "$P" --tier "$T"; rc=$?
+cd /verif && cp "evidence/$P.json" "/tmp/evidence-$P.bak" 2>/dev/null
+./check "$P" --tier "$T"; rc=$?
+cp "/tmp/evidence-$P.bak" "evidence/$P.json" 2>/dev/null
 git -C /repo checkout -- . 
 git -C /repo status --porcelain
 echo "seed $S property $P rc=$rc"
